@@ -9,7 +9,6 @@ import asyncio
 import importlib
 import json
 import os
-import sys
 from dataclasses import dataclass, field
 from typing import Any
 
